@@ -438,6 +438,7 @@ def run(chk):
                        'plateau and junction point) / ScaleUp / Roughen / TightenPA to depth %d from 3 base sequences (guideline examples); a seeded sample of the walks, stratified by action kinds, is '
                        'executed on perform_fkm_nonlinear_assessment (max_load_independently_for_nodes=True) and every recorded step is decided by Trace_Assessment.tla; plus P_A = 0.5 probes for N_10 <= N_50 <= N_90. '
                        'Non-trivial = accepted walk; distinct by (base, actions).' % depth)
+    chk.cov['rule'] += ' Further parts: MC_PRAJAccum states (one or two points, threshold class, class counts) replayed into DamageCalculatorPRAJ on crafted collectives; per-point crack-opening histories of P_RAJ collectives (single points, batches, per-point G) validated by Trace_CrackOpening.tla with strains logged as ranks; Relayout actions (unsorted node ids, node-major rows, G labels, spliced index, numpy bool flag).'
     chk.cov['exhaustive'] = False
     chk.assumptions += ['metamorphic: the relation between two runs is decided, not the absolute lifetime', 'sampled walks (the pipeline costs ~1 s per assessment)']
 
